@@ -5,3 +5,4 @@ import CLModel.Props.C01
 import CLModel.Props.C20
 import CLModel.Compare.Merge
 import CLModel.Props.C04
+import CLModel.Props.C05
